@@ -51,6 +51,9 @@ Qed.
 Section Inv.
 Variable crc : N -> N.
 Variable delcrc : N.
+(* the counting invariant is kept relative to two constants so that it can be re-based at any reachable
+   state: imports + pending + ka <= external writes + kb *)
+Variable ka kb : N.
 
 Definition rev_crc (r : rev) : N := if r_del r then delcrc else crc (r_body r).
 
@@ -83,7 +86,7 @@ Definition Snap (s : state) (e : bdoc) : Prop := DocInv (clk s) e /\ older e (do
 Record Inv0 (s : state) : Prop := {
   inv_doc : DocInv (clk s) (doc s);
   inv_evs : Forall (Snap s) (evs s);
-  inv_cnt : imports s + pend (doc s) <= exts s
+  inv_cnt : imports s + pend (doc s) + ka <= exts s + kb
 }.
 Definition Inv (s : state) : Prop := Inv0 s /\ wb s = bstate (doc s).
 
@@ -108,8 +111,9 @@ Proof.
   constructor; cbn; try lia; auto; try congruence.
 Qed.
 
-Lemma init_Inv : Inv init.
+Lemma init_Inv : ka <= kb -> Inv init.
 Proof.
+  intros Hk.
   split; [constructor|reflexivity]; cbn.
   - apply absent_DocInv.
   - constructor; [|constructor]. split; [apply absent_DocInv | left; reflexivity].
